@@ -120,6 +120,20 @@ func watchdog(limit time.Duration) {
 			emit(&res)
 			os.Exit(3)
 		}
+		if r := curRun.Load(); r != nil && r.Failed() && stalled > 10*time.Second {
+			// A violation is already on record and the run's teardown does
+			// not get anywhere (the harness skips parts of its orderly
+			// shutdown after a violation): report the recorded violation.
+			res := *c
+			res.Type = "hang"
+			res.OK = false
+			res.Viol = r.Violations()
+			res.Tape = r.Tape.Recorded()
+			res.Trace = r.CanonicalLog()
+			res.Steps = r.Step()
+			emit(&res)
+			os.Exit(3)
+		}
 		if stalled > 60*time.Second {
 			fmt.Fprintf(os.Stderr, "WATCHDOG: no progress for %v, not a provable hang (running=%d mutexWait=%d)\n", stalled, running, mutexWait)
 			for _, g := range gs {
